@@ -217,3 +217,60 @@ Proof.
   - intros e He. discriminate He.
 Qed.
 
+
+(* ---------------------------------------------------------------- the exact kinds theorem *)
+Theorem erun_kinds3_from_step :
+  step_body3 -> newbuf_ok_statement -> reach_out_prefix_statement -> reach_done_statement ->
+  erun_kinds3_statement.
+Proof.
+  intros Hstep Hnb Hpre Hdone data cs bufsize t reads Hdata Hcs Hne [Hpos Hlen].
+  rewrite erun_ext_loop.
+  pose proof (erun_loop_ok3 Hstep data t Hdata reads (newReader bufsize cs t) [] Hpos
+                (newReader_inv3 Hnb data cs bufsize t Hcs Hne) (Forall_nil _)) as HR.
+  destruct (erun_loop (newReader bufsize cs t) reads []) as [l f].
+  destruct HR as (((c & R1 & R2 & R3 & R4) & Hd & Ht & Hg) & HE).
+  intros Hnf.
+  assert (Hp : is_prefix (results_bytes l) (out (Inflate.inflate [] data))).
+  { apply is_prefix_trans with (b := frev (rout (cfg_st c))).
+    - exists (pending_out f). symmetry. exact R2.
+    - apply Hpre. exact R1. }
+  destruct HE as [[Hok Hl]|(pre & bytes & r & El & Hr & Hrd)].
+  - exfalso. pose proof (results_bytes_length_ge (rev l) Hok) as Hge.
+    assert (Hlr : length (results_bytes (rev l)) = length (results_bytes l)).
+    { unfold results_bytes. rewrite map_rev. clear. induction (map fst l) as [|a m IH]; [reflexivity|].
+      cbn [rev concat]. rewrite concat_app, !app_length, IH. cbn [concat length]. rewrite app_nil_r. lia. }
+    destruct Hp as [z Hz]. apply (f_equal (@length N)) in Hz. rewrite app_length in Hz.
+    rewrite rev_length in Hge. cbn [length] in Hl. unfold byte in *. lia.
+  - exists bytes, r. subst l.
+    split; [apply last_app_single|]. split; [destruct pre; discriminate|].
+    assert (Hnr : r <> RPanic /\ r <> RStuck).
+    { unfold no_fatal in Hnf. apply Forall_app in Hnf. destruct Hnf as [_ Hnf].
+      inversion Hnf as [|x y Hx _]; subst. exact Hx. }
+    destruct Hrd as [Hrd|[Hrd Hrw]]; [destruct Hnr; contradiction|].
+    destruct (Hg r Hrd) as (G1 & G2 & G3 & G4).
+    rewrite (pending_out_nil f Hrw), app_nil_r in G2, G3.
+    assert (Hkind : r = REOF \/ r = RUnexpectedEOF \/ r = RSrcErr \/ exists o, r = RCorrupt o).
+    { destruct G1 as [K|[K|[K|[K|[K|K]]]]]; auto; destruct Hnr; contradiction. }
+    assert (Heof : r = REOF -> status (Inflate.inflate [] data) = Done).
+    { intros ->. destruct (R4 Hrd) as (st & S0 & Hc & _). subst c.
+      exact (proj1 (Hdone data st S0 R1)). }
+    assert (Hu : r = RUnexpectedEOF -> t = TEOF /\ status (Inflate.inflate [] data) = NeedInput).
+    { intros K. destruct (G2 K) as (T1 & T2 & _). split; assumption. }
+    assert (Hs : r = RSrcErr -> t = TErr /\ status (Inflate.inflate [] data) = NeedInput).
+    { intros K. destruct (G3 K) as (T1 & T2 & _). split; assumption. }
+    split; [exact Hkind|].
+    split.
+    { intros Hdn Hst. destruct Hkind as [K|[K|[K|K]]]; [exact K| | |]; exfalso.
+      - destruct (Hu K) as [_ E]. rewrite Hdn in E. discriminate.
+      - destruct (Hs K) as [_ E]. rewrite Hdn in E. discriminate.
+      - exact (G4 K Hst Hdn). }
+    split; [exact Heof|].
+    split.
+    { intros Hc. destruct Hkind as [K|[K|[K|K]]]; [| | |exact K]; exfalso.
+      - rewrite (Heof K) in Hc. discriminate.
+      - destruct (Hu K) as [_ E]. rewrite Hc in E. discriminate.
+      - destruct (Hs K) as [_ E]. rewrite Hc in E. discriminate. }
+    split; [exact Hu|]. split; [exact Hs|].
+    intros [K|K]; [destruct (G2 K) as (_ & _ & z & Z1 & Z2)|destruct (G3 K) as (_ & _ & z & Z1 & Z2)];
+      exists z; split; assumption.
+Qed.
